@@ -75,7 +75,7 @@ def _render_feature_structure(
     row_data = [fs_id_to_anchor.get(fs.xmiID)]
 
     if max_covered_text > 0 and _is_annotation_fs(fs):
-        covered_text = fs.get_covered_text()
+        covered_text = fs.get_covered_text() if getattr(fs, FEATURE_BASE_NAME_SOFA, None) is not None else None
         if covered_text and len(covered_text) >= max_covered_text:
             prefix = covered_text[0 : (max_covered_text // 2)]
             suffix = covered_text[-(max_covered_text // 2) :]
@@ -165,7 +165,7 @@ def _generate_anchor(fs: FeatureStructure, add_index_mark: bool) -> str:
     if add_index_mark:
         anchor += "*"
 
-    if hasattr(fs, FEATURE_BASE_NAME_SOFA):
+    if getattr(fs, FEATURE_BASE_NAME_SOFA, None) is not None:
         anchor += f"@{fs.sofa.sofaID}"
 
     return anchor
